@@ -32,7 +32,12 @@ pub fn add_irq_sources(r: &mut Rng, scn: &mut MScn, n: usize, window: u32, level
             vect = vect.wrapping_add(1).max(0x81);
         }
         used_vects.push(vect);
-        let prio = if r.chance(1, 8) { 0 } else { 1 + r.below(7) as u8 };
+        // (priorities above 7 are documented to be treated as 7)
+        let prio = match r.below(16) {
+            0 | 1 => 0,
+            2 => 8 + r.below(248) as u8,
+            _ => 1 + r.below(7) as u8,
+        };
         let port = 0xFE20 + 2 * (scn.devs.len() as u16);
         let handler = r.chance(5, 6);
         let haddr = 0x1000 + 0x40 * (scn.devs.len() as u16);
@@ -342,6 +347,11 @@ pub fn gen_frames(r: &mut Rng) -> MScn {
         s.pokes.push((a, seq));
         let at = r.below(s.ops.len() as u64 + 1) as usize;
         s.ops.insert(at.min(s.ops.len()), Op::SetPc(a));
+        if r.bool() {
+            // stack pointer at the very top of memory: calling-convention argument blocks then
+            // touch or cross xFFFF
+            s.ops.insert(at.min(s.ops.len()), Op::SetReg(6, *r.pick(&[0xFFFCu16, 0xFFFD, 0xFFFE, 0xFFFF, 0x0000, 0xFFFB])));
+        }
         if at == 0 {
             // make sure something steps afterwards
         }
@@ -404,7 +414,9 @@ pub fn gen_observer(r: &mut Rng) -> MScn {
                         if r.bool() {
                             ops.push(Op::HostWrite { addr, data: r.u16(), privileged: true, track: false });
                         } else {
-                            ops.push(Op::HostRead { addr, privileged: true, effects: false, track: false });
+                            // every combination of the two flags that are easy to confuse
+                            let (effects, track) = *r.pick(&[(false, false), (true, false), (true, false), (false, true)]);
+                            ops.push(Op::HostRead { addr, privileged: true, effects, track });
                         }
                     }
                 }
